@@ -475,7 +475,7 @@ def s11(ctx, rep):
         if f_ is not q:
             continue
         shape, ok_, detail = c15.classify(ctx, f_, node)
-        if not ok_ and c15._mirror_when_specialised(f_):
+        if shape is None and c15._mirror_when_specialised(f_):
             # written in a way the shape table does not know: decided on the function with the mode fixed either way - mirror
             # images, and the complement of the quantile belongs to 'max' (best-first list read from its other end)
             consts = dict(f_.module.constants)
